@@ -176,14 +176,14 @@ impl Widget {
             if let Some(refs) = expr::build_object_ref_list(p, diagnostics) {
                 refs.into_iter()
                     .map(|id| {
-                        let o = ctx
-                            .object_tree
-                            .get_by_id(&id)
-                            .expect("object ref must be valid");
-                        if is_action_separator(ctx, o, diagnostics) {
-                            ACTION_SEPARATOR_NAME.to_owned()
-                        } else {
-                            id
+                        // A reference which is not an object id is the generated name of
+                        // the object itself (e.g. implicit this.menuAction() of QMenu
+                        // without id), which can't be a separator action.
+                        match ctx.object_tree.get_by_id(&id) {
+                            Some(o) if is_action_separator(ctx, o, diagnostics) => {
+                                ACTION_SEPARATOR_NAME.to_owned()
+                            }
+                            _ => id,
                         }
                     })
                     .collect()
